@@ -113,6 +113,27 @@ def check_add(run, F, prefix="R-CONTAINER"):
     run.ob(prefix, "add has a hit and a miss path", found[True] >= 1 and found[False] >= 1, str(found), site(b), key="%s|%s|both" % (prefix, ADD))
 
 
+def check_attribute_ctor(run, F, rule="R-CONTAINER"):
+    """IppAttribute::new(name, value) stores exactly that name and that value: the parser keys its map by the wire name and `add` by name()."""
+    b = F.body("ipp::attribute::IppAttribute::new")
+    if b is None:
+        run.anchor_lost(rule, "ipp::attribute::IppAttribute::new")
+        return
+    for p in paths_of(b):
+        r = p.ret
+        ok = r[0] == "ctor" and isinstance(r[2], dict)
+        if ok:
+            nm, val = r[2].get("name"), r[2].get("value")
+            def identity_chain(t):
+                while is_call(t) and t[1].split("::")[-1] in ("as_ref", "to_owned", "to_string", "into", "from", "borrow", "clone", "as_str") and len(t[2]) == 1:
+                    t = t[2][0]
+                return t == ("var", b["params"][0].get("name"))
+            ok = identity_chain(nm) and val == ("var", b["params"][1].get("name")) and not p.conds
+        run.ob(rule, "IppAttribute::new stores the given name and value unchanged", ok,
+               "constructor builds %s: a name that is folded, clipped or rewritten no longer matches the key it is filed under" % tshow(r)[:160], site(b),
+               key="%s|attribute-new" % rule)
+
+
 def check_ordered(run, F):
     """who-may-reorder: crate-wide enumeration (by receiver type) of operations on the group / value lists."""
     n_sites = 0
@@ -188,6 +209,7 @@ def check(run, views, tier):
             run.ob("R-CONTAINER", "group list is a Vec", gt.startswith("std::vec::Vec<ipp::attribute::IppAttributeGroup"), gt, key="R-CONTAINER|groups-type")
         check_ordered(run, F)
         from .. import codecrules as _cr
+        check_attribute_ctor(run, F)
         nmk = _cr.r_mapkey(run, F)
         run.floor("R-MAPKEY", nmk, 2, "inserts into attribute maps (parser, add)")
         items = F.impl_items("ipp::value::IppValueIterator", "std::iter::Iterator")
